@@ -227,6 +227,17 @@ let run_pc_marlin c =
      | Result.Ok (ck, vk) ->
        obs "key_degrees" "N" [ string_of_int (int_of_nat (Marlin.ck_supported fo ck)); string_of_int (int_of_nat ck.Marlin.ck_max_degree);
                                string_of_int (int_of_nat vk.Marlin.mvk_supported); string_of_int (int_of_nat vk.Marlin.mvk_max) ];
+       obs "key.powers" "G1" (fs_to ck.Marlin.ck_powers);
+       obs "key.gamma" "G1" (fs_to ck.Marlin.ck_gamma);
+       (match ck.Marlin.ck_shifted_powers with Some sp -> obs "key.shifted" "G1" (fs_to sp) | None -> ());
+       obs "key.bounds" "N" (match ck.Marlin.ck_bounds with
+           | None -> [ "none" ] | Some l -> dash (List.map (fun x -> string_of_int (int_of_nat x)) l));
+       (match vk.Marlin.mvk_shifts with
+        | Some l -> obs "key.shift_bounds" "N" (dash (List.map (fun (b, _) -> string_of_int (int_of_nat b)) l));
+          obs "key.shift_powers" "G1" (List.map (fun (_, p) -> f_to_str p) l)
+        | None -> ());
+       obs "key.vk1" "G1" [ f_to_str vk.Marlin.mvk_vk.KZG10.vk_g; f_to_str vk.Marlin.mvk_vk.KZG10.vk_gamma_g ];
+       obs "key.vk2" "G2" [ f_to_str vk.Marlin.mvk_vk.KZG10.vk_h; f_to_str vk.Marlin.mvk_vk.KZG10.vk_beta_h ];
        let n = int1 c "n" in
        let lps = Array.init n (fun i ->
            let k x = Printf.sprintf "%s.%d" x i in
@@ -522,6 +533,34 @@ let run_c08 c =
     | r -> obs1 "setup" "S" (class_of r)
   end
 
+(* ---------------- C09: KZG10::setup relative to the library's own base elements ---------------- *)
+let run_c09 c =
+  match str1 c "sub" with
+  | "kzg_setup" when has c "beta" ->
+    let fo = fo () in
+    let d = int1 c "D" and g2 = int1 c "g2" = 1 in
+    let one = tof Z.one in
+    (match KZG10.setup fo (nat_of_int d) g2 (f_of_str (str1 c "beta")) one one one with
+     | Result.Ok up ->
+       obs1 "setup" "S" "ok";
+       obs "pp_sizes" "N" [ string_of_int (List.length up.KZG10.up_powers_of_g); string_of_int (List.length up.KZG10.up_powers_of_gamma_g);
+                            string_of_int (List.length up.KZG10.up_neg_powers_of_h) ];
+       obs "pp_g" "R:base_g" (fs_to up.KZG10.up_powers_of_g);
+       obs "pp_gamma" "R:base_gamma" (fs_to up.KZG10.up_powers_of_gamma_g);
+       obs1 "pp_beta_h" "R:base_h" (f_to_str up.KZG10.up_beta_h);
+       if g2 then obs "pp_neg" "R:base_h" (fs_to up.KZG10.up_neg_powers_of_h);
+       obs1 "max_degree" "N" (string_of_int (int_of_nat (KZG10.max_degree fo up)));
+       (* prepared table: entries 2^i * g for the sampled positions *)
+       let pick = [ 0; 1; 2; 3; 64; 127; 200; 254 ] in
+       obs1 "prep_len" "N" "255";
+       obs "prep_g" "R:base_g" (List.map (fun i -> f_to_str (tof (Z.erem (Z.shift_left Z.one i) !modulus))) pick);
+       obs1 "generators_ok" "S" "yes"; obs1 "deterministic" "S" "yes"
+     | r -> obs1 "setup" "S" (class_of r))
+  | "kzg_setup" ->
+    (match KZG10.setup (fo ()) (nat_of_int (int1 c "D")) false (tof Z.one) (tof Z.one) (tof Z.one) (tof Z.one) with
+     | Result.Ok _ -> obs1 "setup" "S" "ok" | r -> obs1 "setup" "S" (class_of r))
+  | _ -> ()
+
 let run_pc c =
   match str1 c "scheme" with
   | "marlin" when has c "beta" -> run_pc_marlin c
@@ -596,6 +635,7 @@ let () =
           | "pc" -> run_pc c
           | "c13" -> run_c13 c
           | "c08" -> run_c08 c
+          | "c09" -> run_c09 c
           | _ -> () (* not modelled: the library run is judged by the implementation-level oracle only *))
        with e -> obs1 "runner_exception" "S" (String.map (fun ch -> if ch = ' ' then '_' else ch) (Printexc.to_string e)));
       print_string ("case " ^ c.id ^ "\n");
